@@ -19,6 +19,7 @@ from pbsym.ctx import B
 from pbsym.models import mp as mpm
 
 PROPERTY = 'C08'
+TECHNIQUE = 'CrossHair/z3 symbolic execution of the real Equalizer in a discrete-event model of multiprocessing/time (symbolic delays and lags); refinement check of the real worker loop; real-multiprocessing validation plans'
 FUNCTIONS = ['playback/studio/equalizer.py::Equalizer.run_comparison',
              'playback/studio/equalizer.py::Equalizer._play_and_compare_recording_within_worker',
              'playback/studio/equalizer.py::Equalizer._handle_compare_execution_timeout',
